@@ -15,6 +15,7 @@ import PdshVerif.Dsh.ExitLemmas
 import PdshVerif.Dsh.ExitRefine
 import PdshVerif.Dsh.ExitRelay
 import PdshVerif.Relay.IndexSim
+import PdshVerif.Dsh.SignalsAbort
 
 namespace PdshVerif.C08
 open PdshVerif PdshVerif.Dsh PdshVerif.Dsh.Exit
@@ -378,6 +379,20 @@ theorem timeout_nonzero (fx : Fixes) (fl : Flags) (hfl : fl.S = true ∨ fl.k = 
     constructor
     · omega
     · intro _ _; omega
+
+/-- a run aborted by ^C (batch mode, or a second ^C within a second) exits 1, whatever the flags -/
+theorem abort_exit1 (fx : Fixes) (fl : Flags) : mainExit fx fl .aborted = 1 := rfl
+
+/-- SIGINT ABORT, composed with the signals model of C20 (Dsh/Signals.lean, all interleavings of dispatcher,
+    workers, signals thread and deliveries): in every reachable state in which exit() has been called, its status
+    is the one this model gives for an aborted run — 1, never 0 -/
+theorem sigint_abort_nonzero {v : Fan.Variant} {g sw : Bool} {f n t0 : Nat} {b : Bool} {s : Sig.St} {c : Nat}
+    (h : Sig.Reach v g sw f n b t0 s) (hx : s.exited = some c) (fx : Fixes) (fl : Flags) :
+    c = mainExit fx fl .aborted ∧ c ≠ 0 := by
+  have := (Sig.ainv_reach h).ex (by rw [hx]; rfl)
+  rw [hx] at this
+  have hc : c = 1 := by simpa using this.2
+  exact ⟨by rw [hc]; rfl, by omega⟩
 
 /-! ## end to end through the relay model: any chunking of every host's stdout -/
 
